@@ -28,7 +28,8 @@ WITNESSES = ["a copy was attempted", "hostile component would leave the destinat
 
 HOSTILE_NAMES = ["..", ".", "", "/abs", "a/../../b", "x/y", "../..", "../../..", "../../../..",
                  "../dest-old", "../destX/y", "/jail/dest_abs",          # siblings whose name extends the destination's own
-                 "../other/../dest/back", "n/../../other2/../dest/n"]     # out and back in: the final path is inside
+                 "../other/../dest/back", "n/../../other2/../dest/n",     # out and back in: the final path is inside
+                 "~", "~/x", "~root", "~u"]                                # what a shell or expanduser would send elsewhere
 HOSTILE_COMPS = ["..", ".", "", "/abs", "a/../../b", "x/y", "../../dest.bak",
                  "../../other/../dest", "../../dest/../other/../dest/name"]     # leave and come back: ends inside, passes through outside
 
@@ -67,10 +68,50 @@ def jobs(tier):
     # the destination itself spelled relatively ('.', '..', '../dest'): containment must not be judged on the spelling
     for version in (1, 2, 3):
         for dspell, cwd in ((".", "/jail/dest"), ("..", "/jail/dest/sub"), ("../dest", "/jail/cwd"), ("../..", "/jail/dest/sub/deeper")):
-            for nm, comps in (("..", None), ("name", ["..", "..", "f.bin"]), ("../../x", None)):
+            for nm, comps in (("..", None), ("name", ["..", "..", "f.bin"]), ("../../x", None), ("~", None), ("~root", None), ("name", ["~", "f.bin"])):
                 out.append(("v%d.dest-%s.%s" % (version, dspell.replace("/", "_"), (nm if comps is None else "comp").replace("/", "_")), "job",
                             dict(version=version, name=nm, comps=comps, dest=dspell, cwd=cwd)))
+    for version in (1, 2, 3):
+        out.append(("v%d.two-releases-same-destination" % version, "job_two_releases", dict(version=version, releases=2)))
     return out
+
+
+def job_two_releases(E, version, releases=2, _mutants=None):
+    """Two metafiles that assign the same path (release 1: name/a of n bytes, release 2: a longer name/a), rebuilt
+    one after the other into one destination: nothing outside the destination - the search tree included - changes."""
+    from harness import c14
+    from harness import recheck as rk
+    P = 16384
+    fs = AFS(cwd="/jail/cwd", order="reversed")
+    n1 = E.int("n1", 1, 2 * P)
+    n2 = E.int("n2", 2, 3 * P)
+    sb = E.int("sb", 1, P)
+    E.assume(n2 > n1)
+    E.note("shape", "flat2")
+    fs.add("/jail/src/rel1/a", ("f", 0), n1)
+    fs.add("/jail/src/rel2/a", ("g", 0), n2)
+    fs.add("/jail/src/b", ("f", 1), sb)
+    m1 = rk.ref_meta(E, version, "flat2", {"name/a": n1, "name/b": sb}, P, False, True)
+    save = cr.fid_of
+    try:
+        cr.fid_of = lambda shape, rel, names=None: ("g", 0) if rel.endswith("/a") else ("f", 1)
+        m2 = rk.ref_meta(E, version, "flat2", {"name/a": n2, "name/b": sb}, P, False, True)
+    finally:
+        cr.fid_of = save
+    fs.add_token("/jail/t/one.torrent", BenTok(m1))
+    fs.add_token("/jail/t/two.torrent", BenTok(m2))
+    fs.mkdirs("/jail/dest")
+    snap = fs.snapshot()
+    w = World(fs, mutants=_mutants)
+    for mf in ("/jail/t/one.torrent", "/jail/t/two.torrent"):
+        try:
+            w.mod("rebuild").Assembler([mf], ["/jail/src"], "/jail/dest").assemble_torrents()
+        except Exception as ex:  # noqa: BLE001
+            E.note("raised", "%s: %s" % (type(ex).__name__, ex))
+    outside = [d for d in fs.diff(snap) if not (d[1] == "/jail/dest" or d[1].startswith("/jail/dest/"))]
+    E.check(not outside, "C19.releases.nothing-outside-changes", "outside the destination: %r" % (outside[:4],))
+    for k in WITNESSES:
+        E.witnesses.setdefault(k, True)
 
 
 def job(E, version, name, comps, single=False, dest="/jail/dest", cwd="/jail/cwd", _mutants=None):
@@ -159,6 +200,10 @@ def job(E, version, name, comps, single=False, dest="/jail/dest", cwd="/jail/cwd
 def replay(params, model, notes, workdir, seed):
     import io
     import contextlib
+    if "releases" in params:
+        from harness import c14
+        bad = c14._replay_releases(params, model, workdir, seed)
+        return [b.replace("C14.releases.sources-untouched", "C19.releases.nothing-outside-changes") for b in bad]
     P = 16384
     version, name, comps, single = params["version"], params["name"], params.get("comps"), params.get("single", False)
     s0, s1 = int(model["s0"]), int(model["s1"])
@@ -202,6 +247,10 @@ def replay(params, model, notes, workdir, seed):
     before = refconc.snapshot(workdir)
     os.chdir(workdir + cwd)
     dspell = params.get("dest", "/jail/dest")
+    oldhome = os.environ.get("HOME")
+    os.makedirs(os.path.join(workdir, "home"), exist_ok=True)
+    os.environ["HOME"] = os.path.join(workdir, "home")          # '~' must never reach the real home directory
+    before = refconc.snapshot(workdir)
     try:
         with contextlib.redirect_stdout(io.StringIO()):
             a = mods["torrentfile.rebuild"].Assembler([os.path.join(jail, "t", "m.torrent")], [os.path.join(jail, "src")],
@@ -211,6 +260,8 @@ def replay(params, model, notes, workdir, seed):
         pass
     finally:
         os.chdir(old)
+        if oldhome is not None:
+            os.environ["HOME"] = oldhome
     after = refconc.snapshot(workdir)
     bad = []
     for k in set(before) | set(after):
